@@ -120,6 +120,46 @@ pub struct PMatrix {
     pub dur: Vec<i64>,
     pub dist: Vec<i64>,
     pub err: Option<Vec<i64>>,
+    /// time-dependent routing: further matrices of the same profile, (timestamp, durations, distances, flags), sorted by
+    /// timestamp and including the first one; empty for a time-independent profile
+    pub slices: Vec<(i64, Vec<i64>, Vec<i64>, Option<Vec<i64>>)>,
+}
+
+impl PMatrix {
+    /// Travel duration of a leg which is left at time `t` (documented semantics of time-dependent routing: the matrix
+    /// value at a matrix timestamp, the first / last matrix outside of the covered span, linear interpolation between the
+    /// two bracketing matrices in between).
+    pub fn duration(&self, from: usize, to: usize, t: f64) -> f64 {
+        let idx = from * self.n + to;
+        if self.slices.is_empty() {
+            return self.dur[idx] as f64;
+        }
+        let k = self.slices.partition_point(|s| (s.0 as f64) <= t);
+        if k == 0 {
+            self.slices[0].1[idx] as f64
+        } else if k == self.slices.len() {
+            self.slices[k - 1].1[idx] as f64
+        } else {
+            let (l, r) = (&self.slices[k - 1], &self.slices[k]);
+            let ratio = (t - l.0 as f64) / (r.0 as f64 - l.0 as f64);
+            l.1[idx] as f64 + ratio * (r.1[idx] as f64 - l.1[idx] as f64)
+        }
+    }
+
+    /// Distance of a leg which is left at time `t` (the value of the latest matrix whose timestamp is not after `t`).
+    pub fn distance(&self, from: usize, to: usize, t: f64) -> i64 {
+        let idx = from * self.n + to;
+        if self.slices.is_empty() {
+            return self.dist[idx];
+        }
+        let k = self.slices.partition_point(|s| (s.0 as f64) <= t);
+        self.slices[k.max(1) - 1].2[idx]
+    }
+
+    pub fn flagged(&self, from: usize, to: usize) -> bool {
+        let idx = from * self.n + to;
+        self.err.as_ref().is_some_and(|e| e[idx] > 0) || self.slices.iter().any(|s| s.3.as_ref().is_some_and(|e| e[idx] > 0))
+    }
 }
 
 #[derive(Clone, Debug)]
@@ -346,10 +386,24 @@ impl PModel {
                 .map(|a| a.iter().filter_map(|d| d.as_i64()).collect())
                 .unwrap_or_default();
             let n = (dist.len() as f64).sqrt().round() as usize;
-            let err = m.get("errorCodes").and_then(|a| a.as_array()).map(|a| a.iter().filter_map(|d| d.as_i64()).collect());
-            pm.insert(name, PMatrix { n, dur, dist, err });
+            let err: Option<Vec<i64>> = m.get("errorCodes").and_then(|a| a.as_array()).map(|a| a.iter().filter_map(|d| d.as_i64()).collect());
+            match (jstr(m, "timestamp").and_then(parse_time), pm.get_mut(&name)) {
+                (Some(ts), Some(existing)) => {
+                    let existing: &mut PMatrix = existing;
+                    existing.slices.push((ts, dur, dist, err));
+                    existing.slices.sort_by_key(|s| s.0);
+                }
+                (Some(ts), None) => {
+                    pm.insert(name, PMatrix { n, dur: dur.clone(), dist: dist.clone(), err: err.clone(), slices: vec![(ts, dur, dist, err)] });
+                }
+                (None, _) => {
+                    pm.insert(name, PMatrix { n, dur, dist, err, slices: vec![] });
+                }
+            }
         }
 
+        // interpolated travel times are not integers
+        fractional |= pm.values().any(|m: &PMatrix| !m.slices.is_empty());
         let mut objectives = vec![];
         if let Some(o) = problem.get("objectives") {
             flatten_objectives(o, &mut objectives);
